@@ -662,7 +662,7 @@ def replay_observable(o, kind, norb, nel, restricted, what, kw):
         o["witness"] = dict(o.get("witness") or {}, native_error=repr(e)[:300])
 
 
-def wick_lemma(norb, nu, nd, order=2, part=None):
+def wick_lemma(norb, nu, nd, order=2, part=None, prop="C02"):
     """Lemma (generalised Wick theorem at this shape), variables (trial C complex, walker):
        <psi|a+_p a_q|phi>/<psi|phi> = G[p,q]  and the two-body analogue with G = conj(C) (w (C^dagger w)^-1)^T."""
     t0 = time.time()
@@ -686,7 +686,7 @@ def wick_lemma(norb, nu, nd, order=2, part=None):
                     n += 1
                     if not (lhs - G[s][p, q] * O).iszero():
                         bad.append((s, p, q))
-        name = f"C02.lemma.wick1[norb={norb},nel={nu}+{nd}]"
+        name = f"{prop}.lemma.wick1[norb={norb},nel={nu}+{nd}]"
     else:
         todo = [(s, s2) for s in range(2) for s2 in range(2)]
         if part is not None:
@@ -706,7 +706,7 @@ def wick_lemma(norb, nu, nd, order=2, part=None):
                             n += 1
                             if not (lhs - rhs * O).iszero():
                                 bad.append((s, s2, p, q, r, t))
-        name = f"C02.lemma.wick2[norb={norb},nel={nu}+{nd}{'' if part is None else ',part=%d' % part}]"
+        name = f"{prop}.lemma.wick2[norb={norb},nel={nu}+{nd}{'' if part is None else ',part=%d' % part}]"
     return [ob(name, REFUTED if bad else DISCHARGED, kind="bounded", backend="ring", wall=time.time() - t0,
                detail=f"{n} identities in (trial, walker); failing: {bad[:5]}", functions=["spec:vc/spec/fock.py"])]
 
@@ -857,7 +857,8 @@ def auto_energy_lemma(norb, nu, nd, nchol=1, restricted=False):
     Hphi = F.ham(c.h0.s[()], h1s, c.L.s, phi)
     N0, D0 = F.inner(psib, Hphi), F.inner(psib, phi)
     num = split_by_var(E.n, eps_idx)
-    den = split_by_var(E.d, eps_idx) if E.d is not None else {0: sp.R.one}
+    Efull = E.d
+    den = split_by_var(Efull, eps_idx) if Efull is not None else {0: sp.R.one}
     tagname = f"[norb={norb},nel={nu}+{nd},nchol={nchol},r={int(restricted)}]"
     fns = [q, f"{WF}.wave_function_auto._build_measurement_intermediates",
            f"{WF}.wave_function_auto._overlap_with_single_rot" + ("_restricted" if restricted else ""),
@@ -881,3 +882,123 @@ def auto_energy_lemma(norb, nu, nd, nchol=1, restricted=False):
     if seen["plain"] == 0 or seen["jvp"] == 0:
         obs.append(ob(f"C02.en.fd.callees{tagname}", UNDECIDED, kind="bounded", detail=f"expected overlap callees not seen: {seen}"))
     return obs
+
+
+# ====================================================================================== direct comparisons with the Fock spec
+def obs_fock(kind, norb, nu, nd, what="energy", restricted=False, **kw):
+    """C02.en.fock / C03.fb.fock: the energy / force-bias entry point, fully interpreted (no callee abstracted), equals
+    <psi|H|phi>/<psi|phi> resp. <psi|L_g|phi>/<psi|phi> built on the Fock space from the same symbols."""
+    t0 = time.time()
+    nel = (nu, nd)
+    c = Case(kind, norb, nel, restricted=restricted, **kw)
+    meth = {"energy": "_calc_energy", "fb": "_calc_force_bias"}[what] + ("_restricted" if restricted else "")
+    hs, hx = c.sx(c.ham0)
+    wvs, wvx = c.sx(c.wave)
+    ham_x = c.trial._build_measurement_intermediates(dict(hx), wvx)
+    ham_s, _ = evaluate(c.inp.sp, c.trial._build_measurement_intermediates, (hs, wvs), (hx, wvx))
+    ws, wx = c.sx(tuple(c.walkers()))
+    fn = getattr(c.trial, meth)
+    out, it = evaluate(c.inp.sp, fn, tuple(ws) + (ham_s, wvs), tuple(wx) + (ham_x, wvx))
+    nat = fn(*wx, ham_x, wvx)
+    F = c.F
+    phi, psib = c.phi().s, c.psibar.s
+    D0 = F.inner(psib, phi)
+    h1s = c.h1.s
+    if restricted:
+        hav = (h1s[0] + h1s[1]) * Fraction(1, 2)
+        h1s = np.stack([hav, hav])
+    if what == "energy":
+        spec = F.inner(psib, F.ham(c.h0.s[()], h1s, c.L.s, phi)) / D0
+    else:
+        spec = np.array([F.inner(psib, F.one_body_both(c.L.s[g], phi)) / D0 for g in range(c.nchol)], dtype=object)
+    prop = "C02.en.fock" if what == "energy" else "C03.fb.fock"
+    name = f"{prop}.{tag(kind, norb, nel, r=int(restricted), nchol=c.nchol, **{k: v for k, v in kw.items() if k in ('moB', 'moG')})}"
+    o = H.identity(name, out, spec, functions=fq(c, meth, "_build_measurement_intermediates"), inputs=c.inp, t0=t0,
+                   note=f"primitives {sum(it.count.values())}")
+    tol = 1e-4 if kind in ("cisd", "cisd_faster", "ucisd") and what == "energy" else 1e-8   # single-precision casts in the hand-coded CI energies
+    x = H.crosscheck(name, c.inp, out, nat, tol=tol)
+    if o["status"] == REFUTED:
+        replay_observable(o, kind, norb, nel, restricted, what, kw)
+    return finish([o], [x])
+
+
+def auto_inherits(kind):
+    """the AD-based kinds evaluate energy through wave_function_auto (so the en.fd lemma applies to them) and define
+    their own overlap (C01) - structural fact read from the class table of the current source"""
+    from vc import front
+    t0 = time.time()
+    out = []
+    for meth in ("_calc_energy", "_calc_energy_restricted", "_build_measurement_intermediates"):
+        q = front.resolve_method(WF, kind, meth)
+        ok = q == f"{WF}.wave_function_auto.{meth}"
+        out.append(ob(f"C02.en.auto.inherits.{kind}.{meth}", DISCHARGED if ok else UNDECIDED, kind="ground", backend="class-table",
+                      detail=f"resolves to {q}", functions=[q or ""], wall=time.time() - t0))
+    return out
+
+
+def ov_mob(kind, norb, nu, nd):
+    """C01.ov.mob: UCISD/ucisd depend on (mo_coeff[1], walker_dn) only through mo_coeff[1]^T walker_dn:
+       overlap(wu, wd; moB) == overlap(wu, moB^T wd; I)  for an ARBITRARY (symbolic) matrix moB.
+    Together with ov.fock at moB = I and at an exact rational orthogonal moB this gives the statement for every
+    orthogonal moB (for orthogonal moB the beta-rotated trial satisfies <U psi|phi> = <psi|U^T phi>: Thouless)."""
+    t0 = time.time()
+    nel = (nu, nd)
+    c = Case(kind, norb, nel, moB="symbolic")
+    a, nat, _ = run_real(c, "_calc_overlap", [c.wu, c.wd, c.wave])
+    wave_I = dict(c.wave)
+    eye = c.wave["mo_coeff"][0]
+    wave_I["mo_coeff"] = [eye, eye]
+    wd2 = H.both(lambda m, w: m.T.dot(w), c.moB, c.wd)
+    b, _, _ = run_real(c, "_calc_overlap", [c.wu, wd2, wave_I])
+    name = f"C01.ov.mob.{tag(kind, norb, nel)}"
+    return finish([H.identity(name, a, b, functions=fq(c, "_calc_overlap"), inputs=c.inp, t0=t0)], [H.crosscheck(name, c.inp, a, nat)])
+
+
+def obs_ru(kind, norb, nocc, what="fb", **kw):
+    """C03.fb.ru / C02.en.ru: restricted entry point == unrestricted entry point on equal blocks"""
+    t0 = time.time()
+    nel = (nocc, nocc)
+    c = Case(kind, norb, nel, restricted=True, spin_dep=False, **kw)
+    hs, hx = c.sx(c.ham0)
+    wvs, wvx = c.sx(c.wave)
+    ham_x = c.trial._build_measurement_intermediates(dict(hx), wvx)
+    ham_s, _ = evaluate(c.inp.sp, c.trial._build_measurement_intermediates, (hs, wvs), (hx, wvx))
+    base = {"energy": "_calc_energy", "fb": "_calc_force_bias"}[what]
+    ws, wx = c.sx((c.w,))
+    a, _ = evaluate(c.inp.sp, getattr(c.trial, base + "_restricted"), (ws[0], ham_s, wvs), (wx[0], ham_x, wvx))
+    b, _ = evaluate(c.inp.sp, getattr(c.trial, base), (ws[0], ws[0], ham_s, wvs), (wx[0], wx[0], ham_x, wvx))
+    prop = "C02.en.ru" if what == "energy" else "C03.fb.ru"
+    name = f"{prop}.{tag(kind, norb, nel)}"
+    o = H.identity(name, a, b, functions=fq(c, base + "_restricted", base), inputs=c.inp, t0=t0)
+    if o["status"] == REFUTED:
+        na, nb = np.asarray(getattr(c.trial, base + "_restricted")(wx[0], ham_x, wvx)), np.asarray(getattr(c.trial, base)(wx[0], wx[0], ham_x, wvx))
+        o["replayed"] = bool(np.max(np.abs(na - nb)) > 1e-8 * (1 + np.max(np.abs(nb))))
+        o["witness"] = dict(o.get("witness") or {}, native=dict(restricted=str(na), unrestricted=str(nb)))
+    return [o]
+
+
+def canary(which="overlap"):
+    """vacuity guards: perturbed postconditions that MUST be refuted"""
+    t0 = time.time()
+    c = Case("uhf", 2, (1, 1))
+    if which == "overlap":
+        out, _, _ = run_real(c, "_calc_overlap", [c.wu, c.wd, c.wave])
+        spec = c.F.inner(c.psibar.s, c.phi().s)
+        o = H.identity("canary.ov.fock.plus1", out, spec + 1, t0=t0)
+    elif which == "conj":
+        out, _, _ = run_real(c, "_calc_overlap", [c.wu, c.wd, c.wave])
+        spec = c.F.inner(H.both(lambda a, b: c.F.det_vec(a, b), c.C[0], c.Cb[1]).s, c.phi().s)   # bra without conj on one spin
+        o = H.identity("canary.ov.fock.noconj", out, spec, t0=t0)
+    else:
+        c = Case("uhf", 2, (1, 1), fresh=True)
+        ham, _ = _ham_sym(c)
+        ws, wx = c.sx(tuple(c.walkers()))
+        wvs, wvx = c.sx(c.wave)
+        h0s, h0x = c.sx(c.ham0)
+        ham_x = c.trial._build_measurement_intermediates(dict(h0x), wvx)
+        meth = "_calc_energy" if which == "energy" else "_calc_force_bias"
+        out, it = evaluate(c.inp.sp, getattr(c.trial, meth), tuple(ws) + (ham, wvs), tuple(wx) + (ham_x, wvx), intercept=_intercepts(c))
+        spec = _sd_wick_terms(c, "energy" if which == "energy" else "fb")
+        o = H.identity(f"canary.{which}.wick.twice", out, spec * 2, t0=t0)
+    o["kind"] = "canary"
+    return [o]
